@@ -47,6 +47,7 @@ type Sweep struct {
 	Name   string
 	Props  []string
 	Kinds  map[string]bool // obligation kinds generated (nil: all)
+	Recv   bool            // noblock: receives are checked as well
 }
 
 type SpecDB struct {
@@ -647,7 +648,7 @@ func (db *SpecDB) readFile(prog *ssa.Program, p *packages.Package, spkg *ssa.Pac
 			case "noblock":
 				for _, n := range dir[1:] {
 					tn := expandName(n)
-					if strings.HasPrefix(n, "props=") {
+					if strings.HasPrefix(n, "props=") || n == "recv" {
 						continue
 					}
 					if allFns[tn] == nil {
@@ -661,6 +662,9 @@ func (db *SpecDB) readFile(prog *ssa.Program, p *packages.Package, spkg *ssa.Pac
 					for _, a := range dir[1:] {
 						if strings.HasPrefix(a, "props=") {
 							sw.Props = strings.Split(strings.TrimPrefix(a, "props="), ",")
+						}
+						if a == "recv" {
+							sw.Recv = true
 						}
 					}
 					db.noblock = append(db.noblock, sw)
